@@ -6,13 +6,13 @@ import RV.Driver.Util
 
     R seed n                      → n `new` indices of the shuffle, then the new seed
     S mode dt nInner <ring> <cand>→ k, then k × (p1 p2 gx gy gz gvx gvy gvz)
-    F mode ks tree hybrid nActive nVar seed dt t <res> nInner <ring> <parts> <given>
+    F mode ks tree hybrid nActive nVar seed <variant: 5 flags of RmVariant> dt t <res> nInner <ring> <parts> <given>
                                   → seed' | calls | final state        (see `fullOut`)
 
     <ring>  = N_ghost_x N_ghost_y N_ghost_z, then 27 × 6 doubles (ghost boxes i,j,k = -1..1)
     <cand>  = n, then n × (ip x y z vx vy vz r)
     <parts> = n, then n × (id x y z vx vy vz m r lc)
-    <given> = k, then k × (p1 p2 gbindex)          (pre-shuffle list, used when mode = given)
+    <given> = k, then k × (p1 p2 gbindex)          (mode given: pre-shuffle list; mode ordered: processing order)
     <res>   = script salt | zero | merge | hs eps mcv | halt
 -/
 open RV RV.Driver RV.Collision
@@ -110,6 +110,8 @@ def opF : Tok String := do
   let mode ← tok
   let ks ← tNat; let tree ← tNat; let hybrid ← tNat
   let nActive ← tInt; let nVar ← tNat; let seed ← tNat
+  let vb ← tMany tNat 5
+  let v : RmVariant := ⟨vb.getD 0 0 != 0, vb.getD 1 0 != 0, vb.getD 2 0 != 0, vb.getD 3 0 != 0, vb.getD 4 0 != 0⟩
   let dt ← tF; let t ← tF
   let res ← tRes t
   let nInner ← tNat
@@ -123,9 +125,10 @@ def opF : Tok String := do
     | "direct" => directSearch ring cand nInner
     | "line" => lineSearch dt ring cand
     | _ => given
-  let (sh, seed') := shuffle (UInt32.ofNat seed) found
+  -- mode "ordered": the given list is the order in which the code processed the entries
+  let (sh, seed') := if mode == "ordered" then (found, UInt32.ofNat seed) else shuffle (UInt32.ofNat seed) found
   let s0 : Sim (Part Float) := ⟨parts, nActive, nVar, tree != 0, hybrid != 0, 0⟩
-  let (sf, calls) := processLoop flagPart res (ks != 0 || hybrid != 0) s0 sh
+  let (sf, calls) := processLoop v flagPart res (ks != 0 || hybrid != 0) s0 sh
   return fullOut seed' sf calls
 
 /-- all ordered pairs passing the LINE leaf test (what LINETREE reports when nothing is pruned):
